@@ -14,14 +14,20 @@ CFG = dict(
     level_text="C16_case_only, C16_concrete_idempotent, C16_pass_case_only and C16_concrete_pass_stable are closed Coq theorems for "
                "every ASCII token, token sequence, memory, ignore list and option list: a fix changes only letter case, and for "
                "upper/lower/capitalise/pascal a second crawl reports and changes nothing. For consistent the frozen-verdict "
-               "lemma (C16_consistent_frozen_partial) and 'all fixes of one crawl use one single case' (C16_consistent_single_case) are proved; one-crawl convergence is refuted for the extended option list "
-               "(C16_consistent_one_pass_refuted), the implementation converges because the fix loop crawls up to three times, "
-               "which is observed (fix(fix)=fix, lint(fix) clean), not proved. Every recorded call of handle_segment is replayed "
-               "on the model on every run.",
+               "lemma (C16_consistent_frozen_partial) and 'all fixes of one crawl use one single case' (C16_consistent_single_case) are proved. "
+               "Convergence of consistent is proved too: with the basic option list (CP01/CP03/CP04) one crawl is enough -- a second "
+               "crawl reports and changes nothing, for every ignore list and token sequence, from the empty memory "
+               "(C16_basic_consistent_one_pass) and from every memory a crawl can be in (C16_basic_consistent_one_pass_from, "
+               "C16_wf_reachable), though not from an arbitrary unreachable memory (C16_basic_one_pass_any_memory_refuted); with the "
+               "extended option list (CP02/CP05) one crawl is not enough (C16_consistent_one_pass_refuted) but the result of the "
+               "second crawl is always stable (C16_extended_consistent_two_pass, C16_consistent_two_pass_from), so the three crawls "
+               "the fix loop runs for post-phase rules suffice on the model; that the loop runs them that way is observed "
+               "(fix(fix)=fix, lint(fix) clean). Every recorded call of handle_segment is replayed on the model on every run.",
     level_note="Trusted: Coq kernel; the recorder hook in cp01.rs; the hand-written model (tie = sampled call-by-call correspondence). "
                "Non-ASCII tokens are excluded from the model comparison (Rust Unicode case mapping not modelled) but kept in the "
                "direct checks. Which tokens the crawler visits (grammar dependent) and that quoted/comment leaves are never "
-               "visited is observed, not modelled. Convergence of consistent within the loop's three crawls is observed only.",
+               "visited is observed, not modelled. The fix loop itself (three crawls of a post-phase rule, fixes applied in between) is "
+               "not modelled: the convergence theorems are about iterated crawls of the model.",
     rule="hand-written statements mixing the five element kinds x every uniform policy and random per-kind policies x dialects x "
          "ignore_words; corpus files and case scrambles of them (upper, lower, per-char, per-word) under random per-kind "
          "policies and ignore_words drawn from the file; each fixed with only CP01-CP05 selected, through lint_string and through "
